@@ -38,6 +38,11 @@ def configs(quick):
                           Bytes="{0, 7}", Sizes="{0, 3}" if q else "{0, 2, 4}", Offsets="0..3", Lens="0..3",
                           Datas="{<<>>, <<165>>, <<90, 60>>, <<1, 2, 3>>}", MaxDepth=1 if q else 2, AllowShrink="TRUE",
                           MaxHist=4)
+    # MCOPY / set_data inside a nested context whose parent already holds memory (the context's checkpoint is not 0):
+    # the write must land in the current context and leave every enclosing context's bytes alone
+    c["mem_copy"] = dict(BASE, Ops=vf.tla_set('"%s"' % o for o in ["new_context", "free_context", "resize", "set_byte", "copy", "set_data"]),
+                         Bytes="{7}", Sizes="{0, 3}", Offsets="0..2", Lens="{1, 2}" if q else "{0, 1, 2}", Datas="{<<165>>, <<90, 60>>}",
+                         MaxDepth=1 if q else 2, MaxHist=6 if q else 7)
     # 32-byte accessors
     c["mem_words"] = dict(BASE, Ops=vf.tla_set('"%s"' % o for o in [
                               "new_context", "free_context", "resize", "set_word", "set_u256", "get_word", "get_u256",
